@@ -128,13 +128,21 @@ Relisten ==
      ELSE /\ localOpen' = TRUE /\ stopped' = FALSE /\ result' = "port" /\ nres' = 1
           /\ UNCHANGED <<cfgNow, fault, others, step, pendOut, loop, asked, exists, why>>
 
+\* ... but the local port the existing service forwards to cannot be bound this time (somebody else has it): listen fails
+\* with that error and nothing is left open - a listener on any other port would be one Tor does not forward to
+RelistenBusy ==
+  /\ step = "done" /\ stopped
+  /\ result' = "err" /\ why' = "bind" /\ nres' = 1 /\ step' = "failed"        \* (the outcome of this call, counted anew)
+  /\ localOpen' = FALSE /\ fault' = "bind" /\ stopped' = FALSE
+  /\ UNCHANGED <<cfgNow, others, pendOut, loop, asked, exists>>
+
 \* descriptor events of another onion service on the same Tor arrive: nothing changes for this listen()
 Foreign == UNCHANGED vars
 \* likewise a failed *fetch* of this service's descriptor (somebody looked the address up before it was published):
 \* Tor reports it with the same event word and our address; it is not an upload and decides nothing
 FetchFailed == UNCHANGED vars
 
-Next == Foreign \/ FetchFailed \/ Refuse \/ Listen \/ ConfigReady \/ CreateReply \/ Disconnect \/ WaitOver \/ Cancel \/ UnsubAck \/ StopListening \/ StartListening \/ Relisten
+Next == Foreign \/ FetchFailed \/ Refuse \/ Listen \/ ConfigReady \/ CreateReply \/ Disconnect \/ WaitOver \/ Cancel \/ UnsubAck \/ StopListening \/ StartListening \/ Relisten \/ RelistenBusy
 Spec == Init /\ [][Next]_vars
 
 ----------------------------------------------------------------------------
